@@ -457,7 +457,11 @@ def VersionTLS13 : Nat := 0x0304
 structure Ctx12 where
   ticketsDisabled : Bool        -- c.config.SessionTicketsDisabled
   now             : Int         -- c.config.time()
-  vers            : Nat         -- c.vers
+  vers            : Nat         -- c.vers: the version NEGOTIATED for this connection
+  helloVers       : Nat         -- hs.clientHello.vers: the version the client OFFERED (its maximum, capped at
+                                -- 1.2); ≥ c.vers in a real handshake, > c.vers when the server is capped lower.
+                                -- The decision must be made on `vers`; `helloVers` is carried so that model and
+                                -- code are compared on inputs where the two differ (it is read by nothing).
   clientSuites    : List Nat    -- hs.clientHello.cipherSuites
   serverSuites    : List Nat    -- c.config.cipherSuites()
   clientAuth      : Nat         -- c.config.ClientAuth
@@ -512,7 +516,7 @@ def checkForResumption12 (suiteByID : Nat → Option SuiteInfo) (x : Ctx12) (key
       | none => none
       | some st =>
         if ticketExpired x.now st.createdAt then none
-        else if x.vers ≠ st.vers then none
+        else if x.vers ≠ st.vers then none      -- c.vers (negotiated), NOT hs.clientHello.vers (offered)
         else if !x.clientSuites.contains st.cipherSuite then none
         else
           match selectCipherSuite suiteByID (cipherSuiteOk x) x.serverSuites [st.cipherSuite] with
